@@ -74,4 +74,9 @@ theorem shape_processAuthorizedRequest_ok : Oidc.Shapes.Shape_processAuthorizedR
 theorem shape_handleCallback_ok : Oidc.Shapes.Shape_handleCallback := by unfold Oidc.Shapes.Shape_handleCallback; rfl
 theorem shape_refreshToken_ok : Oidc.Shapes.Shape_refreshToken := by unfold Oidc.Shapes.Shape_refreshToken; rfl
 
+/-! obligations against the regenerated program text: the functions these theorems rest on read, statement for statement, as
+    they did when the model was written after them (`Oidc/Shapes.lean`) -/
+theorem text_TraefikOidc_isAllowedDomain_ok : Oidc.Shapes.Text_TraefikOidc_isAllowedDomain := by unfold Oidc.Shapes.Text_TraefikOidc_isAllowedDomain; rfl
+theorem text_TraefikOidc_extractGroupsAndRoles_ok : Oidc.Shapes.Text_TraefikOidc_extractGroupsAndRoles := by unfold Oidc.Shapes.Text_TraefikOidc_extractGroupsAndRoles; rfl
+
 end Oidc.Props.C06
